@@ -6,11 +6,15 @@ m·x/(4π|x|³) (three `HasDerivAt` computations); the straight current segment:
 direction) equals the Biot–Savart line integral over the segment for every observer off the
 carrier line (`segment_is_biot_savart`, via the antiderivative, the fundamental theorem of
 calculus and an affine substitution — Lemmas/SegmentBS.lean); the Circle on its axis
-(`circle_on_axis_is_biot_savart`: the wrapper's on-axis branch is the loop integral); Sphere = ⅔J inside / dipole outside
+(`circle_on_axis_is_biot_savart`: the wrapper's on-axis branch is the loop integral); the Cuboid: the port of
+`magnet_cuboid_Bfield` (octant reflection, arctan2 sums, log differences, `qsigns`) equals the
+Coulombian surface-charge integral over its six faces for every observer off the six face planes,
+all octants, plus J inside (`cuboid_is_coulomb_integral`, via two nested one-variable FTC steps per
+face — Lemmas/RectCharge.lean, Lemmas/CuboidCoulomb.lean); Sphere = ⅔J inside / dipole outside
 with the textbook interface conditions (C13, C14); the wrappers add exactly the interior
 polarization term (C02); the frame change global↔local is a rigid motion (C03).
 /- FULL: for every class the closed form equals its defining surface / line integral.  Not shown:
-   (b) Cuboid, Triangle (hence
+   (b) Triangle (hence
    Tetrahedron, TriangularMesh): iterated one-variable integrals of the same kind; (c) Circle off its axis,
    Cylinder, CylinderSegment: need Bulirsch cel/el3 theory absent from Mathlib.  For all classes
    the quadrature oracle integrates the defining integral numerically against the real code. -/
@@ -22,6 +26,8 @@ import MagpyVerif.Lemmas.KernReal
 import MagpyVerif.Lemmas.SegmentBS
 import Mathlib.Analysis.Calculus.Deriv.MeanValue
 import MagpyVerif.Lemmas.DipoleCalc
+import MagpyVerif.Lemmas.RectCharge
+import MagpyVerif.Lemmas.CuboidCoulomb
 namespace MagpyVerif.C01
 open MagpyVerif MagpyVerif.Kern Real intervalIntegral MagpyVerif.SegBS
 
@@ -202,4 +208,142 @@ theorem circle_on_axis_is_biot_savart (fuel : Nat) (d cur z : ℝ) (hd : d ≠ 0
     rw [this]
     field_simp
     ring
+
+/-! ### Cuboid: the closed form of `magnet_cuboid_Bfield` is the Coulombian surface-charge integral
+
+`cuboidCoulombB dim pol p` (Lemmas/CuboidCoulomb.lean) is, component by component,
+`1/(4π) ∮ σ(q) (p − q)/|p − q|³ dA(q)` over the six faces of the cuboid `[−dim/2, dim/2]`, with
+`σ = J·n` (`+J_x` on `x' = +dim.x/2`, `−J_x` on `x' = −dim.x/2`, …), each face integral an iterated
+`intervalIntegral` in the source coordinates; this is `μ₀H` of the homogeneously polarised body. -/
+
+open MagpyVerif.RectCharge MagpyVerif.CuboidCoulomb in
+/-- the field of a uniformly charged rectangle, the two building blocks of the Cuboid formula
+(`x`, `y` in-plane offsets, `z ≠ 0` the normal distance, `r = √(x²+y²+z²)`, limits in any order):
+normal component  ∫∫ z/r³ = Δ arctan(x y/(z r)),  tangential  ∫∫ x/r³ = Δ log(r − y),
+`Δ F = F(x₂,y₂) − F(x₂,y₁) − F(x₁,y₂) + F(x₁,y₁)` -/
+theorem rect_charge_field {z : ℝ} (hz : z ≠ 0) (x1 x2 y1 y2 : ℝ) :
+    (∫ y in y1..y2, ∫ x in x1..x2, z / rr x y z ^ 3) =
+        d2 (fun x y => Real.arctan (x * y / (z * rr x y z))) x1 x2 y1 y2 ∧
+    (∫ y in y1..y2, ∫ x in x1..x2, x / rr x y z ^ 3) =
+        d2 (fun x y => Real.log (rr x y z - y)) x1 x2 y1 y2 :=
+  ⟨rect_normal hz x1 x2 y1 y2, rect_tangential hz x1 x2 y1 y2⟩
+
+example : (∫ y in (0:ℝ)..1, ∫ x in (0:ℝ)..1, (1:ℝ) / MagpyVerif.RectCharge.rr x y 1 ^ 3) =
+    MagpyVerif.RectCharge.d2 (fun x y => Real.arctan (x * y / (1 * MagpyVerif.RectCharge.rr x y 1))) 0 1 0 1 :=
+  (rect_charge_field one_ne_zero 0 1 0 1).1
+
+open MagpyVerif.CuboidCoulomb in
+/-- **C01 (Cuboid)**: for positive side lengths, every polarization and every observer off the six
+(infinitely extended) face planes, the value computed by the port of `magnet_cuboid_Bfield` —
+reflection of the observer into the bottom-Q4 octant, eight corner distances, the arctan2 sums
+`ff1*`, the log differences `ff2*`, the `qsigns` table — is the Coulombian surface-charge integral
+`1/(4π) ∮ (J·n)(p − q)/|p − q|³ dA` over the six faces (= μ₀H), plus `J` for observers strictly
+inside: B = μ₀H + J inside, B = μ₀H outside.  Covers all eight octants (the reflection is shown
+to be invisible in exact arithmetic) and the interior. -/
+theorem cuboid_is_coulomb_integral (dim pol p : V3 ℝ) (hdx : 0 < dim.x) (hdy : 0 < dim.y) (hdz : 0 < dim.z)
+    (hx : |p.x| ≠ dim.x / 2) (hy : |p.y| ≠ dim.y / 2) (hz : |p.z| ≠ dim.z / 2) :
+    cuboidB dim pol p =
+      cuboidCoulombB dim pol p +
+        (if |p.x| < dim.x / 2 ∧ |p.y| < dim.y / 2 ∧ |p.z| < dim.z / 2 then pol else ⟨0, 0, 0⟩) := by
+  have off : ∀ {t a : ℝ}, 0 < a → |t| ≠ a → t - a ≠ 0 ∧ t + a ≠ 0 := by
+    intro t a ha h
+    constructor
+    · intro e; apply h; rw [show t = a by linarith]; exact abs_of_pos ha
+    · intro e; apply h; rw [show t = -a by linarith, abs_neg]; exact abs_of_pos ha
+  have hX := off (half_pos hdx) hx
+  have hY := off (half_pos hdy) hy
+  have hZ := off (half_pos hdz) hz
+  exact cuboidB_eq_coulomb dim pol p hdx hdy hdz hX.1 hX.2 hY.1 hY.2 hZ.1 hZ.2
+
+open MagpyVerif.CuboidCoulomb in
+/-- outside the magnet the closed form is exactly the surface-charge integral -/
+theorem cuboid_outside_is_coulomb_integral (dim pol p : V3 ℝ) (hdx : 0 < dim.x) (hdy : 0 < dim.y) (hdz : 0 < dim.z)
+    (hx : |p.x| ≠ dim.x / 2) (hy : |p.y| ≠ dim.y / 2) (hz : |p.z| ≠ dim.z / 2)
+    (hout : ¬ (|p.x| < dim.x / 2 ∧ |p.y| < dim.y / 2 ∧ |p.z| < dim.z / 2)) :
+    cuboidB dim pol p = cuboidCoulombB dim pol p := by
+  rw [cuboid_is_coulomb_integral dim pol p hdx hdy hdz hx hy hz, if_neg hout]
+  apply V3.ext' <;> simp
+
+-- non-vacuity: a 2×2×2 cuboid; an observer that needs all three reflections (x<0, y>0, z>0), one in the
+-- bottom-Q4 octant itself, one strictly inside
+example : cuboidB (⟨2, 2, 2⟩ : V3 ℝ) ⟨0, 0, 1⟩ ⟨-3, 1 / 2, 5⟩ =
+    MagpyVerif.CuboidCoulomb.cuboidCoulombB ⟨2, 2, 2⟩ ⟨0, 0, 1⟩ ⟨-3, 1 / 2, 5⟩ := by
+  apply cuboid_outside_is_coulomb_integral <;> norm_num [abs_of_pos, abs_of_neg]
+example : cuboidB (⟨2, 2, 2⟩ : V3 ℝ) ⟨0, 0, 1⟩ ⟨3, -1 / 2, -5⟩ =
+    MagpyVerif.CuboidCoulomb.cuboidCoulombB ⟨2, 2, 2⟩ ⟨0, 0, 1⟩ ⟨3, -1 / 2, -5⟩ := by
+  apply cuboid_outside_is_coulomb_integral <;> norm_num [abs_of_pos, abs_of_neg]
+example : cuboidB (⟨2, 2, 2⟩ : V3 ℝ) ⟨0, 0, 1⟩ ⟨1 / 2, 1 / 3, -1 / 4⟩ =
+    MagpyVerif.CuboidCoulomb.cuboidCoulombB ⟨2, 2, 2⟩ ⟨0, 0, 1⟩ ⟨1 / 2, 1 / 3, -1 / 4⟩ + ⟨0, 0, 1⟩ := by
+  rw [cuboid_is_coulomb_integral _ _ _ (by norm_num) (by norm_num) (by norm_num)
+    (by norm_num [abs_of_pos]) (by norm_num [abs_of_pos]) (by norm_num [abs_of_neg]), if_pos]
+  norm_num [abs_of_pos, abs_of_neg]
+
+open MagpyVerif.CuboidCoulomb in
+/-- **C01 (Cuboid wrapper, H)**: where `BHJM_magnet_cuboid` takes its general branch and its
+tolerance-based inside mask agrees with the geometric interior (observer not within the relative
+1e-12 shell around the surface), the returned H is the surface-charge integral divided by μ₀ —
+inside and outside the magnet alike. -/
+theorem cuboid_wrapper_H_is_coulomb_integral (dim pol p : V3 ℝ) (hdx : 0 < dim.x) (hdy : 0 < dim.y) (hdz : 0 < dim.z)
+    (hx : |p.x| ≠ dim.x / 2) (hy : |p.y| ≠ dim.y / 2) (hz : |p.z| ≠ dim.z / 2)
+    (hgen : (cuboidMasks dim pol p).general = true)
+    (hins : (cuboidMasks dim pol p).inside = decide (|p.x| < dim.x / 2 ∧ |p.y| < dim.y / 2 ∧ |p.z| < dim.z / 2)) :
+    bhjmCuboid .H dim pol p = vd (cuboidCoulombB dim pol p) mu0R := by
+  simp only [bhjmCuboid, wrapB, hgen, hins, if_true, cuboid_is_coulomb_integral dim pol p hdx hdy hdz hx hy hz,
+    decide_eq_true_eq, mu0_real]
+  split_ifs <;> apply V3.ext' <;> simp [vd, zero3, n]
+
+-- non-vacuity of the mask hypotheses: general branch taken, inside mask = geometric interior (outside and inside)
+example : (cuboidMasks (⟨2, 2, 2⟩ : V3 ℝ) ⟨0, 0, 1⟩ ⟨3, -1 / 2, -5⟩).general = true ∧
+    (cuboidMasks (⟨2, 2, 2⟩ : V3 ℝ) ⟨0, 0, 1⟩ ⟨3, -1 / 2, -5⟩).inside =
+      decide (|(3 : ℝ)| < 2 / 2 ∧ |(-1 / 2 : ℝ)| < 2 / 2 ∧ |(-5 : ℝ)| < 2 / 2) := by
+  constructor <;> simp [cuboidMasks, n] <;> norm_num [abs_of_pos, abs_of_neg]
+example : (cuboidMasks (⟨2, 2, 2⟩ : V3 ℝ) ⟨0, 0, 1⟩ ⟨1 / 2, 1 / 3, -1 / 4⟩).general = true ∧
+    (cuboidMasks (⟨2, 2, 2⟩ : V3 ℝ) ⟨0, 0, 1⟩ ⟨1 / 2, 1 / 3, -1 / 4⟩).inside =
+      decide (|(1 / 2 : ℝ)| < 2 / 2 ∧ |(1 / 3 : ℝ)| < 2 / 2 ∧ |(-1 / 4 : ℝ)| < 2 / 2) := by
+  constructor <;> simp [cuboidMasks, n] <;> norm_num [abs_of_pos, abs_of_neg]
+
+open MagpyVerif.CuboidCoulomb in
+/-- **C01 (Cuboid wrapper, geometric form)**: for positive side lengths, **every** polarization
+(zero included) and every observer outside the three thin shells `| |p_i| − dim_i/2 | < 1e-15·dim_i/2`
+in which `BHJM_magnet_cuboid` switches to its surface / edge special cases, the wrapper's masks,
+its general branch and `magnet_cuboid_Bfield` together return
+  H = (1/μ₀) · (1/(4π)) ∮ (J·n)(p − q)/|p − q|³ dA      (inside and outside alike), and
+  B = that surface-charge integral, plus J strictly inside. -/
+theorem cuboid_wrapper_is_coulomb_integral (dim pol p : V3 ℝ) (hdx : 0 < dim.x) (hdy : 0 < dim.y) (hdz : 0 < dim.z)
+    (hx : rtol * (dim.x / 2) ≤ |(|p.x| - dim.x / 2)|) (hy : rtol * (dim.y / 2) ≤ |(|p.y| - dim.y / 2)|)
+    (hz : rtol * (dim.z / 2) ≤ |(|p.z| - dim.z / 2)|) :
+    bhjmCuboid .H dim pol p = vd (cuboidCoulombB dim pol p) mu0R ∧
+    bhjmCuboid .B dim pol p = cuboidCoulombB dim pol p +
+      (if |p.x| < dim.x / 2 ∧ |p.y| < dim.y / 2 ∧ |p.z| < dim.z / 2 then pol else ⟨0, 0, 0⟩) := by
+  obtain ⟨hin, hgen⟩ := cuboidMasks_clear dim pol p hdx hdy hdz hx hy hz
+  have ox := (shell_clear (half_pos hdx) hx).2.2
+  have oy := (shell_clear (half_pos hdy) hy).2.2
+  have oz := (shell_clear (half_pos hdz) hz).2.2
+  have hcore := cuboid_is_coulomb_integral dim pol p hdx hdy hdz ox oy oz
+  by_cases hp : pol.x = 0 ∧ pol.y = 0 ∧ pol.z = 0
+  · have hpol : pol = ⟨0, 0, 0⟩ := V3.ext' hp.1 hp.2.1 hp.2.2
+    subst hpol
+    have hgen' : (cuboidMasks dim ⟨0, 0, 0⟩ p).general = false := by rw [hgen]; simp
+    simp only [bhjmCuboid, wrapB, hgen', cuboidCoulombB_zero_pol, mu0_real, Bool.false_eq_true, if_false, ite_self]
+    constructor <;> apply V3.ext' <;> simp [vd, zero3, n]
+  · simp only [hp, decide_false, Bool.not_false] at hgen
+    by_cases hI : |p.x| < dim.x / 2 ∧ |p.y| < dim.y / 2 ∧ |p.z| < dim.z / 2
+    · have hin' : (cuboidMasks dim pol p).inside = true := by
+        rw [hin]; exact decide_eq_true (show insideP dim p from hI)
+      simp only [bhjmCuboid, wrapB, hgen, hin', if_true, hcore, mu0_real, if_pos hI]
+      refine ⟨?_, trivial⟩
+      apply V3.ext' <;> simp [vd]
+    · have hin' : (cuboidMasks dim pol p).inside = false := by
+        rw [hin]; exact decide_eq_false (show ¬ insideP dim p from hI)
+      simp only [bhjmCuboid, wrapB, hgen, hin', if_true, hcore, mu0_real, if_neg hI, Bool.false_eq_true, if_false]
+      refine ⟨?_, trivial⟩
+      apply V3.ext' <;> simp [vd, zero3, n]
+
+-- non-vacuity: 2×2×2 cuboid, observers far outside, in another octant, and strictly inside
+open MagpyVerif.CuboidCoulomb in
+example : rtol * ((2 : ℝ) / 2) ≤ |(|(3 : ℝ)| - 2 / 2)| ∧ rtol * ((2 : ℝ) / 2) ≤ |(|(-1 / 2 : ℝ)| - 2 / 2)| ∧
+    rtol * ((2 : ℝ) / 2) ≤ |(|(-1 / 4 : ℝ)| - 2 / 2)| := by
+  unfold rtol
+  refine ⟨?_, ?_, ?_⟩ <;> norm_num [abs_of_pos, abs_of_neg]
+
 end MagpyVerif.C01
